@@ -85,6 +85,7 @@ META = {
 }
 
 MARKER = 'vmon_marker'
+SAMPLED = set()     # one evidence sample per part and shard
 AMBIGUOUS = '<ambiguous>'
 LOW, HIGH = 10, 30
 
@@ -307,7 +308,8 @@ def detection_case(obs, rng, ctx, spec, pending):
             obs.cls('near-miss:falls-back-to-generic')
         elif winner == model.expected_class:
             obs.cls('near-miss:still-specific')
-        if len(obs.samples) < 2 and winner != model.expected_class and winner != AMBIGUOUS and conv in ('ugrid', 'shoc_simple'):
+        if 'a' not in SAMPLED and winner != model.expected_class and winner != AMBIGUOUS and conv in ('ugrid', 'shoc_simple'):
+            SAMPLED.add('a')
             obs.sample({'part': 'a', 'convention': conv, 'near-miss': label, 'rule matches': matches, 'rule winner': winner,
                         'get_dataset_convention': got})
 
@@ -484,10 +486,11 @@ def registration_case(obs, rng, ctx, spec):
                        lambda: {'got': getattr(plain, '__name__', None), 'want': builtin_name}, mech='registration-leak')
             obs.expect(list(reg.registered_conventions[-n:]) == in_order, 'registry lists the manual registrations in order')
             obs.sig('reg', conv, tuple(specs), order)
-            if order == tuple(range(n)) and len(obs.samples) < 3 and kind.startswith('tie') and n >= 2:
+            if 'b' not in SAMPLED and kind.startswith('tie') and n >= 2:
+                SAMPLED.add('b')
                 obs.sample({'part': 'b', 'convention': conv, **detail(), 'kind': kind})
         after = obs.call('get_dataset_convention', get_dataset_convention, marked)
-        if after is not builtin:
+        if after is not before:
             raise AssertionError('harness: registry state was not restored (%r)' % after)
 
 
@@ -695,11 +698,15 @@ def check_history(obs, ops, history, expected_class, conv):
     return ok
 
 
-def history_case(obs, ops, bases, spec, sample=False):
+def history_case(obs, ops, bases, spec, only=None):
     for conv, (base, klass) in bases.items():
+        if only is not None and conv != only:
+            continue
         history = run_history(ops, base, klass)
         good = check_history(obs, ops, history, klass.__name__, conv)
-        if sample and good and conv == 'ugrid':
+        if good and 'c' not in SAMPLED and len(ops) >= 5 and sum(r[0] == 'bind' and r[2] == 'raised' for r in history) \
+                and sum(r[0] == 'copy' for r in history) and ops[-1] in 'xy':
+            SAMPLED.add('c')
             obs.sample({'part': 'c', 'ops': ops, 'convention': conv,
                         'legend': 'a=A.ems b=bind A c/C=B=A.copy(shallow/deep) x=B.ems y=bind B; last records are probes',
                         'history (op, handle, outcome, id, type, dataset is handle)': history})
@@ -748,13 +755,15 @@ def run(ctx):
 
     # (c) histories: complete enumeration, then random long ones
     max_len = ctx.n(5, 7)
+    full_len = ctx.n(5, 6)      # up to this length every sequence runs on all five conventions, longer ones on one (rotating)
     sequences = legal_sequences(max_len)
     bases = make_bases(ctx.seed, 0, 'hist')
     done = 0
     for case, rng in ctx.cases(len(sequences), stream='hist'):
         ops = sequences[case]
         spec = {'part': 'c', 'case': case, 'ops': ops}
-        ctx.run_case(spec, history_case, obs, ops, bases, spec, sample=(ops == 'bcaxy' or ops == 'acxyb'))
+        only = None if len(ops) <= full_len else CONVENTIONS[case % len(CONVENTIONS)]
+        ctx.run_case(spec, history_case, obs, ops, bases, spec, only=only)
         obs.cls('hist:exhaustive-sequences')
         done += 1
     if ctx.only_case is None:
